@@ -802,24 +802,24 @@ for _p in ("C08", "C09", "C10", "C11", "C12", "C13"):
 
 # additions of the third session, appended to the explanations (MANIFEST level_claimed.text and evidence)
 _EXTRA = {
-    "C01": " (a2) single thread, EVERY operation sequence up to length 7/8 on one real arena_slot over {spawn with isolation tag 0/1/2, get_task with isolation 0/1/2, steal with isolation 0/1, spawn a mailed affinity proxy, mailbox claim}: nothing lost, handed out twice, handed to a non-matching taker, or refused while a matching task is in the pool. Fault legs: the copy of the functor into its task throws inside task_group::run / defer and the group keeps being used.",
-    "C02": " Bounded-queue legs with a failing push (a sleeper must be woken by the next successful push); address-waiter bucket collisions; execute slot hand-over.",
+    "C01": " (a2) single thread, EVERY operation sequence up to length 7/8 on one real arena_slot over {spawn with isolation tag 0/1/2, get_task with isolation 0/1/2, steal with isolation 0/1, spawn a mailed affinity proxy, mailbox claim}: nothing lost, handed out twice, handed to a non-matching taker, or refused while a matching task is in the pool. Fault legs: the copy of the functor into its task throws inside task_group::run / defer and the group keeps being used. A worker recalled for a higher-priority arena leaves with a non-empty pool and a later waiter in a lower slot must find the tasks; a task_group whose wait left by an exception is used again.",
+    "C02": " Bounded-queue legs with a failing push (a sleeper must be woken by the next successful push); address-waiter bucket collisions; execute slot hand-over. rw_mutex downgrade must wake readers asleep in lock_shared; enqueue under soft limit 0 with two priority levels.",
     "C03": " Every exception object thrown by a body must be destroyed by the end (a second thrower must not overwrite the captured exception); bodies that call task_arena::execute on the arena they already run in and throw afterwards.",
-    "C04": " Two cancellers of a leaf context (no children) and of a never-bound context.",
-    "C05": " The partitioners' range pool (range_vector: ring indices, relative depths) is driven by EVERY operation sequence up to length 9/11 against a deque model; *-nested legs let a body re-enter the dispatcher on its own worker.",
+    "C04": " Two cancellers of a leaf context (no children) and of a never-bound context. A parent that was reset keeps its bound children (cancel still reaches them).",
+    "C05": " The partitioners' range pool (range_vector: ring indices, relative depths) is driven by EVERY operation sequence up to length 9/11 against a deque model; *-nested legs let a body re-enter the dispatcher on its own worker. One split of 2d/3d/nd ranges in which a non-divisible dimension sits next to a just-divisible one of grain 2^2..2^62 (the split must go to the divisible dimension at every magnitude).",
     "C06": " The *-nested leg lets every body re-enter the dispatcher on its own worker (a nested wait takes the not yet stolen sibling).",
-    "C08": " Program sweeps: every assignment of section sequences over the lock's operation alphabet to 2-3 threads, incl. one scoped_lock object per thread reused across sections; two mutexes sharing an address-waiter bucket.",
-    "C09": " Program sweeps: EVERY assignment of operation sequences of length 1-2/3 over push/try_push/pop/try_pop to 2-3 threads (blocking programs only if the reference model cannot block forever), from empty / non-empty / page-boundary starts, with the k-th element copy throwing. A relaxed reference model classifies the recorded finding 'a failed push leaves an invalid entry that counts against the capacity' (also for stuck executions); anything else is a violation.",
-    "C10": " Program sweeps over insert/erase/find/count/emplace/accessors on one key and on a parent/child bucket pair, incl. the table one insert below the growth threshold (segment enable + lazy rehash in the window); accessor exclusivity is tracked per element.",
-    "C11": " Program sweeps over the growth calls from start sizes 0..16 incl. throwing constructors; a sequential leg drives growth calls across 2^31 and 2^32 (one-byte elements, address space only).",
-    "C12": " Program sweeps per container kind (3 threads x 1 op, 2 threads x 2 ops, constant hash), insert(node_type&&) of nodes extracted from another container, equal_range checked at the end; a count() that overlaps inserts of other keys is checked against bounds only (the property promises no atomic count).",
-    "C13": " Program sweeps: every assignment of push/try_pop sequences of length 1-2 to three threads on heaps of 0, 2..7 elements with priorities above / between / equal to the contents, four-thread batches, throwing copies.",
-    "C14": " The buffer operation-sequence legs of C15 are part of this check (message conservation at buffering nodes); a *-nested leg lets task-based bodies re-enter the dispatcher.",
-    "C15": " limiter_node<int,int>: decrement values 1/2, a decrement arriving while a put is in flight (sent from inside the successor).",
-    "C16": " Three-thread leg: an isolated waiter must not take a non-isolated loop chunk that travels as an affinity proxy; priority leg: the single worker is handed over to the higher-priority arena instead of draining its low-priority pool.",
-    "C17": " Foreign free of blocks from scalable_aligned_malloc whose user address lies inside a slot; calloc of a recycled (dirty) block of every swept size.",
+    "C08": " Program sweeps: every assignment of section sequences over the lock's operation alphabet to 2-3 threads, incl. one scoped_lock object per thread reused across sections; two mutexes sharing an address-waiter bucket. rw_mutex: a writer that downgrades keeps the read lock until the readers asleep in lock_shared got in; speculative_spin_rw_mutex: a writer holding the real lock is visible to transactional readers (write_flag invariant).",
+    "C09": " Program sweeps: EVERY assignment of operation sequences of length 1-2/3 over push/try_push/pop/try_pop to 2-3 threads (blocking programs only if the reference model cannot block forever), from empty / non-empty / page-boundary starts, with the k-th element copy throwing. A relaxed reference model classifies the recorded finding 'a failed push leaves an invalid entry that counts against the capacity' (also for stuck executions); anything else is a violation. One thread, 36 pushes around a lane killed by a failed page allocation, then a drain (sequential phases stay under the liveness oracle).",
+    "C10": " Program sweeps over insert/erase/find/count/emplace/accessors on one key and on a parent/child bucket pair, incl. the table one insert below the growth threshold (segment enable + lazy rehash in the window); accessor exclusivity is tracked per element. erase(accessor) is modelled by element identity (it fails if its element was unlinked by another erase, even if the key was inserted again).",
+    "C11": " Program sweeps over the growth calls from start sizes 0..16 incl. throwing constructors; a sequential leg drives growth calls across 2^31 and 2^32 (one-byte elements, address space only). Allocation-fault sweeps: the 1st..4th allocation inside the window throws for all two- and three-call programs, at(i) for every i < 40 afterwards works or throws; a grow_to_at_least that only waits must wait for the allocation of every segment below n.",
+    "C12": " Program sweeps per container kind (3 threads x 1 op, 2 threads x 2 ops, constant hash), insert(node_type&&) of nodes extracted from another container, equal_range checked at the end; a count() that overlaps inserts of other keys is checked against bounds only (the property promises no atomic count). The key type has a move constructor that invalidates its source (like std::string); traversal through range() split in two / three rounds.",
+    "C13": " Program sweeps: every assignment of push/try_pop sequences of length 1-2 to three threads on heaps of 0, 2..7 elements with priorities above / between / equal to the contents, four-thread batches, throwing copies. Quick tier includes the four-thread batches with one pop and three pushes.",
+    "C14": " The buffer operation-sequence legs of C15 are part of this check (message conservation at buffering nodes); a *-nested leg lets task-based bodies re-enter the dispatcher. Lightweight nodes whose result nobody takes; the limiter blocks of C15 (threshold honoured also after decrements that arrive while nothing is outstanding).",
+    "C15": " limiter_node<int,int>: decrement values 1/2, a decrement arriving while a put is in flight (sent from inside the successor). broadcast_node with every accept/reject pattern of three successors; a successor registration racing a put on an overwrite_node; a sequencer buffer that grows by several doublings at once.",
+    "C16": " Three-thread leg: an isolated waiter must not take a non-isolated loop chunk that travels as an affinity proxy; priority leg: the single worker is handed over to the higher-priority arena instead of draining its low-priority pool. A slot index is not handed on before the leaving thread's on_scheduler_exit has finished; white-box: every push/pop sequence with isolation tags on one real mail_outbox.",
+    "C17": " Foreign free of blocks from scalable_aligned_malloc whose user address lies inside a slot; calloc of a recycled (dirty) block of every swept size. Over-aligned requests whose size or size+alignment sits on a size-class boundary; the clean-up commands racing foreign frees; calloc products that are not representable.",
     "C18": " Back-reference table exhaustion (8400 live large objects) with memory staying exhausted from an explorer-chosen request on, for the default pool and for a memory pool over a drained default pool; pool_realloc histories; the allocator must never mremap/munmap raw memory of a user pool; realloc of slab / large / remappable blocks to unrepresentable sizes.",
-    "C19": " First accesses after the container was move-constructed / move-assigned (element count and table must travel together).",
+    "C19": " First accesses after the container was move-constructed / move-assigned (element count and table must travel together). clear() / copy assignment make the next local() a first use again (both key kinds); collaborative_call_once called from a task whose group is cancelled.",
     "C20": " Suspension inside a critical task (priority flow-graph node) in a one-slot arena with a late foreign resume; owner recall when the thread leaving a foreign stack must start a fresh coroutine (three threads, step-driven).",
 }
 for _p, _t in _EXTRA.items():
